@@ -149,11 +149,51 @@ def oracle(c, out, scales):
     return (not ok), "convert(%s %s -> %s) = %s, exact %s, |err| = %.3e" % (a, fu, tu, r, float(Tt), float(err))
 
 
+def kani_identity(report, tier):
+    """E1: converting to the unit a value already has returns the bit-identical amount, for every f64 bit
+    pattern (NaN, inf, -0 included) and every unit (symbolic index); equiv_amount returns the same bits."""
+    from engine.kani.runner import KaniCrate, Harness, confirm_failures
+    from spec import catalogue
+    from props import kanigen as G, synthdefs
+    qs = [q for q in catalogue.CATALOGUE if q.ref is not None]
+    pre = G.PRELUDE + synthdefs.SYNTH_RS + "".join(G.tables(q, "f64") for q in qs) + G.tables(synthdefs.DOSE, "f64")
+    for q in catalogue.ASTRO:
+        pre += G.tables(q, "f64").replace("const %s_" % q.name.upper(), "const A%s_" % q.name.upper())
+    kc = KaniCrate("c01", "f64", astro=True, extra_src=pre)
+    for q, pfx in [(q, "") for q in qs + [synthdefs.DOSE]] + [(q, "A") for q in catalogue.ASTRO]:
+        T_ = pfx + q.name.upper()
+        kc.add(Harness("identity_%s%s" % (pfx.lower(), q.name.lower()), """
+        let a: f64 = kani::any();
+        let i: usize = kani::any();
+        kani::assume(i < %(T)s_N);
+        let u = %(T)s_IDENTS[i];
+        let x = <%(Q)s as Quantity>::new(a, u);
+        let y = x.convert(u);
+        assert!(y.unit() == u, "conversion carries the requested unit");
+        assert!(y.amount().to_bits() == a.to_bits(), "converting to the unit a value already has returns the identical amount");
+        assert!(x.equiv_amount(u).to_bits() == a.to_bits(), "the equivalent-amount query returns the same number");
+        let j: usize = kani::any();
+        kani::assume(j < %(T)s_N);
+        assert!(x.convert(%(T)s_IDENTS[j]).unit() == %(T)s_IDENTS[j], "conversion carries exactly the requested unit");
+        kani::cover!(a.is_nan() && i == %(T)s_N - 1, "NaN amount, last unit");
+        """ % {"T": T_, "Q": G.qpath(q) + q.name}, unwind=len(q.units) + 2, key="f64 %s%s same-unit conversion is the identity" % (pfx, q.name),
+                       sample={"harness": "identity_" + q.name.lower(), "symbolic": "a: any f64 bit pattern; unit indices i, j",
+                               "asserts": "convert(u).amount bits == a bits, equiv_amount(u) bits == a bits, convert(v).unit() == v"}))
+    kc.add(Harness("canary_must_fail", "        let a: f64 = kani::any();\n        let x = a * quantities::length::INCH;\n        assert!(x.convert(quantities::length::FOOT).amount().to_bits() == a.to_bits());\n",
+                   expect="fail", key="canary", symbolic=False))
+    report.bounds["kani_identity"] = "every f64 bit pattern, every unit (symbolic index) of 13 catalogue types, the 4 astronomical types and a synthetic type"
+    kc.run(report, timeout=900)
+    confirm_failures(report)
+
+
 def run(report, tier):
     E.setup_report(report, "C01")
     backends = ["f64", "dec"]
+    import concurrent.futures as cf
     keys = E.dump_worlds(backends)
-    pool = mpool.Pool()
+    pool = mpool.Pool(jobs=max(2, common.ncpu() - 6))
+    ex_ = cf.ThreadPoolExecutor(max_workers=1)
+    fut = ex_.submit(kani_identity, report, tier)
     try:
         desc = E.describe_worlds(pool, keys)
         tasks = E.ref_tasks(keys, desc)
@@ -164,5 +204,7 @@ def run(report, tier):
         pool.cross_check(report)
         E.native_confirm(report, "C01", cands, desc, oracle, probes=E.probe_amounts_1)
         E.translator_validation(report, pool, desc, ops=("convert",), full=(tier == "thorough"))
+        fut.result()
     finally:
         pool.close()
+        ex_.shutdown(wait=False)
